@@ -3,11 +3,22 @@
 // valid as long as the called object is the stored one.
 #include "vf_harness.hpp"
 #include <cstdint>
+#include <sstream>
+#include <string>
 using namespace ctpg; using namespace ctpg::buffers;
 struct TermF { char canon[8] = "KEYWORD"; long operator()(std::string_view) const { return long(reinterpret_cast<std::uintptr_t>(this)); } };
 struct ViewF { char canon[8] = "KEYWORD"; std::string_view operator()(std::string_view) const { return std::string_view(canon, 7); } };
 struct RuleF { long salt = 7; long operator()(long a, std::string_view v) const { std::string copy(v); return (copy == "KEYWORD" ? 1 : 0) * 1000000007L + (a & 0xffffffffL) * 0 + long(reinterpret_cast<std::uintptr_t>(this)); } };
 struct Lx { template<class It, class ES> recognized_term match(match_options, source_point, It s, It e, ES&) const { if (s == e) return recognized_term{}; return recognized_term(*s == 'k' ? 0 : 1, 1); } };
+// a custom lexer may answer a valid index with length 0 (a marker in front of a token): the parser stacks it with the empty slice, consumes nothing and asks again
+// at the same position. (The lexer object lives for one request only, so its state is static; the marker is shifted directly after a real term.)
+static bool zl_marked = false; static std::string zl_calls;
+struct ZLx { template<class It, class ES> recognized_term match(match_options, source_point, It s, It e, ES&) const {
+    if (s == e) return recognized_term{};
+    zl_calls += *s;
+    if (*s == 'a') return recognized_term(0, 1);
+    if (*s == 'b') { if (!zl_marked) { zl_marked = true; return recognized_term(1, 0); } zl_marked = false; return recognized_term(2, 1); }
+    return recognized_term{}; } };
 template<class P> int probe(const char* what, const P& p, const char* text)
 {
     auto lo = reinterpret_cast<std::uintptr_t>(&p), hi = lo + sizeof(p);
@@ -65,6 +76,22 @@ int main()
         bool inside = r.has_value() && *r != -1 && std::uintptr_t(*r) >= lo && std::uintptr_t(*r) < hi && named.calls == 0;
         std::printf("R named-lvalue-functor functor-object-inside-parser=%d view-into-functor-state-valid=1 result=%d\n", int(inside), int(r.has_value() && r2.has_value()));
         bad += !inside;
+    }
+    {   // zero-length custom term
+        static constexpr nterm<long> I("I");
+        std::string mark_slices, b_slices;
+        custom_term ta("A", [](std::string_view v) { return long(v.size()); });
+        custom_term tm("MARK", [&](std::string_view v) { mark_slices += "<" + std::string(v) + ">"; return long(v.size()); });
+        custom_term tb("B", [&](std::string_view v) { b_slices += "<" + std::string(v) + ">"; return long(v.size()); });
+        parser p(S, terms(ta, tm, tb), nterms(S, I), rules(S(I), S(S, I) >= [](long a, long b) { return a + b; },
+                 I(ta, tm, tb) >= [](long a, long m, long b) { return 100 * a + 10 * m + b; }), use_lexer<ZLx>{});
+        zl_marked = false; zl_calls.clear();
+        std::stringstream es;
+        auto r = p.parse(string_buffer("ab a b"), es);
+        bool ok = zl_calls == "abbabb" && mark_slices == "<><>" && b_slices == "<b><b>" && es.str().empty();
+        std::printf("R zero-length-custom-term functor-object-inside-parser=1 view-into-functor-state-valid=%d result=%d (lexer asked at '%s', MARK slices %s, B slices %s)\n",
+                    int(ok), int(r.has_value() && *r == 202), zl_calls.c_str(), mark_slices.c_str(), b_slices.c_str());
+        bad += !ok || !(r.has_value() && *r == 202);
     }
     std::printf("END %d\n", bad);
     return 0;
